@@ -36,7 +36,13 @@ def scanBack (t : FText) (lastLine : Nat) : Nat → Except TextErr Nat
       else pure (k + 1)
     else pure (k + 1)
 
-/-- Lines 579-587: the end-of-text special case. -/
+/-- `s.strip(" \t\f") == ""` -/
+def isWsFF (c : Char) : Bool := c = ' ' || c = '\t' || c = '\x0c'
+
+/-- Lines 579-587: the end-of-text special case; and (repair 8ec4444) the next node starting in the middle of
+    its line behind nothing but whitespace (a form feed in front of an import): that whitespace is non-code, the
+    search for the end of this statement starts at the beginning of that line.  (`text[FilePos(e.line,1):e]` is
+    the line's first `e.col - 1` characters: `e.line > lastLine ≥ text.startpos.lineno`.) -/
 def eofAdjust (t : FText) (s : Pos) (lastLine : Nat) (e : Pos) : Except TextErr Pos :=
   if e.col ≠ 1 then
     if e = t.endpos then
@@ -48,7 +54,11 @@ def eofAdjust (t : FText) (s : Pos) (lastLine : Nat) (e : Pos) : Except TextErr 
           let lp ← t.lineAt (e.line - 1)
           if !endsWithBackslash lp || isCommentOrBlank lp then pure ⟨e.line, 1⟩ else pure e
       else pure e
-    else pure e
+    else
+      if e.line > lastLine then do
+        let l ← t.lineAt e.line
+        if (l.take (e.col - 1)).all isWsFF then pure ⟨e.line, 1⟩ else pure e
+      else pure e
   else pure e
 
 /-- End position of the piece owned by the node starting at `s`, the next node
